@@ -210,10 +210,10 @@ fn current_file(dir: &Path, cfg: &Cfg) -> Option<String> {
     let o = obs::observe(dir, cfg, None, false);
     let files = o["files"].as_array().unwrap().clone();
     if !cfg.rot {
-        return files
-            .iter()
-            .find(|f| f["k"] == "plain")
-            .map(|f| f["name"].as_str().unwrap().to_string());
+        // with a start time in the name every run has its own file: the newest one is the current one
+        let mut c: Vec<&Value> = files.iter().filter(|f| f["k"] == "plain").collect();
+        c.sort_by_key(|f| f["st"].as_i64().unwrap_or(-1));
+        return c.last().map(|f| f["name"].as_str().unwrap().to_string());
     }
     if !cfg.cur.is_empty() {
         return files
@@ -303,7 +303,9 @@ pub fn run_scenario(sc: &Value, ex: &mut Exec) -> usize {
         "norm": {"naming": cfg.naming, "rot": cfg.rot, "size": cfg.size, "age": cfg.age, "k": cfg.k, "m": cfg.m,
                  "clean": cfg.clean(), "mode": cfg.mode, "cap": cfg.cap as i64, "le": cfg.le().len(),
                  "direct": cfg.cur.is_empty() && cfg.rot, "bg": cfg.bg, "fmt": cfg.fmt, "link": cfg.link,
-                 "append": cfg.append, "via": cfg.via, "suffix": cfg.suffix.clone().unwrap_or_default()},
+                 "append": cfg.append, "via": cfg.via, "suffix": cfg.suffix.clone().unwrap_or_default(),
+                 "has_suffix": cfg.suffix.is_some(), "basename": cfg.basename, "discr": cfg.discr.clone().unwrap_or_default(),
+                 "has_discr": cfg.discr.is_some(), "use_ts": cfg.use_ts, "cur": cfg.cur},
         "t": hh.get_clock()});
     if let Some(x) = sc.get("tag") {
         begin["tag"] = x.clone();
@@ -737,6 +739,70 @@ pub fn run_scenario(sc: &Value, ex: &mut Exec) -> usize {
                 hh.arm_fault(None);
                 "ok".into()
             }
+            "Nop" => "ok".into(),
+            "FromPath" => {
+                // FileSpec::try_from(path) -> logger -> one record -> shutdown; then list everything below root
+                let raw_path = st["path"].as_str().unwrap_or("x.log").to_string();
+                let abs = raw_path.starts_with("ABS/");
+                let path = if abs {
+                    root.join(&raw_path[4..]).display().to_string()
+                } else {
+                    raw_path.clone()
+                };
+                ev["path"] = json!(raw_path);
+                ev["expect"] = st.get("expect").cloned().unwrap_or(json!(""));
+                std::env::set_current_dir(&root).ok();
+                next_id += 1;
+                let id = next_id;
+                let msg = obs::message(id, 20, 1);
+                ev["id"] = json!(id);
+                let r = catch_unwind(AssertUnwindSafe(|| -> Result<(), String> {
+                    let fs = FileSpec::try_from(path.clone()).map_err(|e| format!("try_from:{e:?}"))?;
+                    let (logger, handle) = Logger::with(LogSpecification::trace())
+                        .log_to_file(fs)
+                        .format_for_files(fmt_plain)
+                        .error_channel(ErrorChannel::File(errfile.to_path_buf()))
+                        .build()
+                        .map_err(|e| format!("build:{e:?}"))?;
+                    logger.log(
+                        &log::Record::builder()
+                            .args(format_args!("{}", msg))
+                            .level(log::Level::Info)
+                            .target("m")
+                            .build(),
+                    );
+                    handle.shutdown();
+                    drop(handle);
+                    drop(logger);
+                    Ok(())
+                }));
+                std::env::set_current_dir("/").ok();
+                let mut found = Vec::new();
+                fn walk(base: &Path, d: &Path, out: &mut Vec<Value>) {
+                    if let Ok(rd) = std::fs::read_dir(d) {
+                        let mut es: Vec<_> = rd.flatten().map(|e| e.path()).collect();
+                        es.sort();
+                        for p in es {
+                            if p.is_dir() {
+                                walk(base, &p, out);
+                            } else {
+                                let rel = p.strip_prefix(base).unwrap_or(&p).display().to_string();
+                                let b = std::fs::read(&p).unwrap_or_default();
+                                let (recs, clean) = obs::decode(&b, "\n");
+                                out.push(json!({"path": rel, "clean": clean,
+                                    "recs": recs.iter().map(|(i, l)| json!([i, l])).collect::<Vec<_>>()}));
+                            }
+                        }
+                    }
+                }
+                walk(&root, &root, &mut found);
+                ev["found"] = json!(found);
+                match r {
+                    Ok(Ok(())) => "ok".into(),
+                    Ok(Err(e)) => format!("err:{e}"),
+                    Err(e) => format!("panic:{}", panic_msg(e)),
+                }
+            }
             "Sleep" => {
                 std::thread::sleep(Duration::from_millis(st["ms"].as_u64().unwrap_or(1)));
                 "ok".into()
@@ -745,6 +811,9 @@ pub fn run_scenario(sc: &Value, ex: &mut Exec) -> usize {
         };
         ev["ret"] = json!(ret);
         ev["t"] = json!(hh.get_clock());
+        ev["tstr"] = json!((crate::handler::epoch() + chrono::Duration::seconds(hh.get_clock()))
+            .format("%Y-%m-%d_%H-%M-%S")
+            .to_string());
         ev["inj"] = json!(hh.injected.swap(0, Ordering::SeqCst));
         ev["errs"] = json!(new_errs(&errfile, &mut errpos));
         if want_pts {
@@ -778,6 +847,19 @@ pub fn run_scenario(sc: &Value, ex: &mut Exec) -> usize {
                 })
                 .collect::<Vec<_>>());
             let curf = current_file(&dir, &cfg).unwrap_or_default();
+            // anything the logger created outside the configured directories
+            let mut known: Vec<String> = vec![cfg.subdir.clone(), "moved".into(), "link_to_current".into()];
+            known.extend(old_fams.iter().map(|(_, c)| c.subdir.clone()));
+            let mut outside: Vec<String> = std::fs::read_dir(&root)
+                .map(|rd| {
+                    rd.flatten()
+                        .map(|e| e.file_name().to_string_lossy().to_string())
+                        .filter(|n| !known.contains(n))
+                        .collect()
+                })
+                .unwrap_or_default();
+            outside.sort();
+            o["outside"] = json!(outside);
             o["pcur"] = json!(last_cur);
             o["cur"] = json!(curf);
             last_cur = curf;
